@@ -25,8 +25,18 @@ CSeqToSet(s) == {s[i] : i \in 1..Len(s)}
 \*  Signed<->Unsigned of equal width without an explicit view, any width-mismatched BitVector
 \*  assignment and Bit<->vector assignments are compile-time errors"
 \* `like` is any value of the target's type (kind and width)
+RECURSIVE CConvert(_, _)
 CConvert(val, like) ==
   IF CIsErr(val) THEN val
+  \* literals: Python True/False are the integers 1/0; a bit string "101" is typed by its target
+  \* ("integer literals must be representable in the target"; test_bit / test_bitvector construct from str)
+  ELSE IF val.t = "pybool" THEN
+       (IF like.t = "bool" THEN CV("bool", val.v) ELSE IF like.t = "bit" THEN CBit(val.v)
+        ELSE IF like.t = "bv" THEN CErr("reject:bool to BitVector") ELSE CConvert(CInt(val.v), like))
+  ELSE IF val.t = "str" THEN
+       (IF like.t = "bit" THEN (IF Len(val.v) = 1 THEN CBit(val.v[1]) ELSE CErr("reject:string length"))
+        ELSE IF like.t \in {"bv", "u", "s"} THEN (IF Len(val.v) = CWidth(like) THEN CV(like.t, val.v) ELSE CErr("reject:string length"))
+        ELSE CErr("reject:string to " \o like.t))
   ELSE IF like.t = "u" THEN
        IF val.t = "u" THEN (IF CWidth(val) <= CWidth(like) THEN CV("u", ZeroExt(val.v, CWidth(like))) ELSE CErr("reject:narrowing"))
        ELSE IF val.t = "s" THEN CErr("reject:Signed to Unsigned without view")
@@ -77,7 +87,13 @@ UpdateAt(old, path, val, rd) ==
   \* new value of `old` after assigning val at path (at most one path element)
   IF Len(path) = 0 THEN CConvert(val, old)
   ELSE LET p == path[1] IN
-       IF p.k = "slice" THEN
+       IF p.k = "view" THEN
+            \* assignment through a typed view (.unsigned/.signed/.bitvector): the value is converted to
+            \* the view's type (same width) and its bits are stored ("views alias the same storage")
+            IF ~CIsVec(old) THEN CErr("reject:view target of " \o old.t)
+            ELSE LET c == CConvert(val, CV(p.to, old.v)) IN
+                 IF CIsErr(c) THEN c ELSE CV(old.t, c.v)
+       ELSE IF p.k = "slice" THEN
             IF ~CIsVec(old) \/ p.lo < 0 \/ p.hi >= CWidth(old) THEN CErr("reject:slice target")
             ELSE LET c == CConvert(val, CV("bv", Slice(old.v, p.hi, p.lo))) IN
                  IF CIsErr(c) THEN c ELSE CV(old.t, SetSlice(old.v, p.hi, p.lo, c.v))
@@ -153,6 +169,7 @@ Run(D, K, loc, atStart, fuel) ==
              K1 == <<[f EXCEPT !.i = @ + 1]>> \o rest
          IN
          CASE s.k = "assign" -> Run(D, K1, DoAssign(D, s, loc), FALSE, fuel - 1)   \* "statements run in program order"
+           [] s.k = "comment" -> Run(D, K1, loc, atStart, fuel - 1)     \* no effect, not an action
            [] s.k = "bind" ->
                 LET v == CEval(s.e, ReadEnv(loc)) IN
                 IF CIsErr(v) THEN [K |-> K, loc |-> [loc EXCEPT !.err = v.v]]
@@ -190,7 +207,11 @@ Run(D, K, loc, atStart, fuel) ==
     [] f.k = "poll" ->
          LET c == CondHolds(f.c, loc) IN
          IF c \notin {"t", "f"} THEN [K |-> K, loc |-> [loc EXCEPT !.err = c]]
-         ELSE IF c = "t" THEN Run(D, rest, loc, FALSE, fuel - 1)
+         \* a first-action await that is satisfied at once has consumed neither a clock nor executed a
+         \* statement with an effect: what follows is still "the very first action" (reading fixed in
+         \* DESIGN.md A.4: first action = no statement with an effect or a computed value precedes it)
+         \* (only the literal `await true`: polling a real condition is a computed test, like an `if`)
+         ELSE IF c = "t" THEN Run(D, rest, loc, atStart /\ f.c.k = "true", fuel - 1)
          ELSE [K |-> K, loc |-> loc]
     [] f.k = "halt" -> [K |-> K, loc |-> loc]
 
@@ -252,6 +273,12 @@ ActivateSeq(E, D, c, st, cur) ==
        \*  and nothing else in the context executes while reset is active"
        LET rs == {n \in written : D.hasdflt[n] /\ ~D.noreset[n]} IN
        [upd |-> [n \in rs |-> D.dflt[n]], K |-> << >>, err |-> ""]
+  ELSE IF ~CIsNone(ctx.step) /\ CondHolds(ctx.step, [cur |-> cur, var |-> CEmptyFn, tmp |-> CEmptyFn]) # "t" THEN
+       \* a context with a step condition (clock enable) is activated only on clocks where it holds;
+       \* a disabled clock changes nothing (the reset above is not gated by it: C04 "whenever the reset
+       \* ... is active (at the active clock edge for synchronous resets ...)")
+       LET c0 == CondHolds(ctx.step, [cur |-> cur, var |-> CEmptyFn, tmp |-> CEmptyFn]) IN
+       [upd |-> CEmptyFn, K |-> st.k[c], err |-> IF c0 = "f" THEN "" ELSE c0]
   ELSE
   LET \* C03: "a signal assigned with ^= carries the pushed value for exactly one step and its
       \*  default in every step in which it is not pushed"
@@ -283,11 +310,12 @@ SettleConc(E, D, obj, n) ==
 \* one clock step: every sequential context whose clock ticks is activated against the same old
 \* values, the updates are committed together, then the concurrent contexts settle.
 \* inp : [input port -> value];  clk : name of the ticking clock port
-SpecStep(E, D, st, inp, clk) ==
+\* one edge of clock clk: the sequential contexts sensitive to that edge
+EdgeStep(E, D, st, inp, clk, edge) ==
   LET \* values visible at the edge: inputs and the (settled) state before the edge
       pre == SettleConc(E, D, inp @@ st.obj, 8)
       cur == pre.obj
-      seqs == {c \in 1..Len(E.ctxs) : E.ctxs[c].kind = "seq" /\ E.ctxs[c].clk = clk}
+      seqs == {c \in 1..Len(E.ctxs) : E.ctxs[c].kind = "seq" /\ E.ctxs[c].clk = clk /\ E.ctxs[c].edge \in {edge, "both"}}
       rs == [c \in seqs |-> ActivateSeq(E, D, c, st, cur)]
       bad == {c \in seqs : rs[c].err # ""}
       RECURSIVE Merge(_, _)
@@ -300,6 +328,12 @@ SpecStep(E, D, st, inp, clk) ==
      ELSE [obj |-> [n \in D.state |-> post.obj[n]],
            k |-> [c \in 1..Len(E.ctxs) |-> IF c \in seqs THEN rs[c].K ELSE st.k[c]],
            err |-> ""]
+
+\* one clock period (rising edge, then falling edge) with the data inputs held
+SpecStep(E, D, st, inp, clk) ==
+  LET s1 == EdgeStep(E, D, st, inp, clk, "rising")
+      anyFalling == \E c \in 1..Len(E.ctxs) : E.ctxs[c].kind = "seq" /\ E.ctxs[c].clk = clk /\ E.ctxs[c].edge \in {"falling", "both"}
+  IN IF s1.err # "" \/ ~anyFalling THEN s1 ELSE EdgeStep(E, D, s1, inp, clk, "falling")
 
 \* inputs change without a clock edge: asynchronous resets act, concurrent contexts follow
 SpecAsync(E, D, st, inp) ==
